@@ -201,6 +201,7 @@ def step(active: bool, peer_gone: bool, ack: bool, quiet: bool, cnt: int, wt: in
     try:
         node.tick()
     except (LIB + (Exception,)) as e:           # "no input makes the state machine raise or stop ticking"
+        __import__('vf.h').h.reraise_if_harness(e)
         reached()
         if REPLAY: note(raised=f"{type(e).__name__}: {e}", state=state, kind=kind, pend=pend)
         return False
@@ -293,6 +294,7 @@ def walk(ev: List[int]) -> bool:
                 node.tick()
                 node.flush()
             except (LIB + (Exception,)) as ex:
+                __import__('vf.h').h.reraise_if_harness(ex)
                 reached()
                 if REPLAY: note(raised=repr(ex), events=[WALK[x] if x < len(WALK) else "stop/none" for x in ev])
                 return False
